@@ -46,6 +46,18 @@ def cases(draw, tier="quick"):
             "seed": draw(st.integers(0, 2 ** 31))}
 
 
+def fixed_cases(tier):
+    """Regressions of repaired defects D2 (973e5ca: reversed range in table mode) and D1 (a02030d: negative later runs)."""
+    out = []
+    for r, vals in (("u8", [0, 1, 2, 3, 4, 5]), ("i8", [-10, -5, -4, 3, 4]), ("i16", [-32768, -32767, -2, -1, 6]), ("u64", [3, 4, 2 ** 40, 2 ** 40 + 1])):
+        spec = {"repr": r, "vis": "pub", "ident": "E", "enum_attrs": [],
+                "variants": [{"ident": "V%d" % i, "disc": str(v)} for i, v in enumerate(vals)]}
+        n = len(vals)
+        out.append({"spec": spec, "base": S.simple_config([]), "seed": 0,
+                    "triples": [[a, b, ["l", "collect"]] for a in range(n) for b in range(n)]})
+    return out
+
+
 def run_case(case):
     out = J.Outcome()
     spec = case["spec"]
